@@ -24,15 +24,17 @@ import Driver.Verify
 import Driver.Injection
 import Driver.LspRequests
 import Driver.Inspect
+import Driver.Structural
+import Driver.Project
 
 open Lean Driver
 
 def allOps : List (String × Handler) :=
-  notationOps ++ indentOps ++ printOps ++ suppressOps ++ spliceOps ++ topoOps ++ selectOps ++ workerOps ++ lspOps ++ frontendsOps ++ loaderOps ++ editDocOps ++ stringCaseOps ++ verifyOps ++ injectionOps ++ lspRequestsOps ++ inspectOps
+  notationOps ++ indentOps ++ printOps ++ suppressOps ++ spliceOps ++ topoOps ++ selectOps ++ workerOps ++ lspOps ++ frontendsOps ++ loaderOps ++ editDocOps ++ stringCaseOps ++ verifyOps ++ injectionOps ++ lspRequestsOps ++ inspectOps ++ projectOps
 
 /-- ops that read or extend the driver state (registered documents) -/
 def allStateOps : List (String × SHandler) :=
-  treeOps ++ ruleOps ++ ruleOracleOps ++ scanOps ++ isolateOps ++ navigationOps
+  treeOps ++ ruleOps ++ ruleOracleOps ++ scanOps ++ isolateOps ++ navigationOps ++ structuralOps
 
 def derr (e : String) : String := (Json.mkObj [("driver_error", Json.str e)]).compress
 
